@@ -384,11 +384,27 @@ let () =
   if Array.length Sys.argv > 1 && Sys.argv.(1) = "--conc" then (conc_main Sys.argv.(2); exit 0);
   if Array.length Sys.argv > 1 && Sys.argv.(1) = "--judge" then (judge_main Sys.argv.(2) Sys.argv.(3); exit 0);
   if Array.length Sys.argv > 1 && Sys.argv.(1) = "--leaf" then (leaf_main (); exit 0);
+  if Array.length Sys.argv > 1 && Sys.argv.(1) = "--codecw" then begin
+    (* stdin lines: <kw> <vw> <k:v,k:v,...|->  -> the file the width-generic codec (coq/CodecW.v) writes, in hex, and
+       whether the checked reader gives the pairs back *)
+    (try while true do
+      let line = String.trim (input_line stdin) in
+      (match List.filter (fun s -> s <> "") (String.split_on_char ' ' line) with
+       | [kw; vw; ps] ->
+         let pairs = if ps = "-" then [] else
+           List.map (fun p -> match String.split_on_char ':' p with [k; v] -> (nn k, nn v) | _ -> failwith "pair") (String.split_on_char ',' ps) in
+         let kwn = nat_of_int (int_of_string kw) and vwn = nat_of_int (int_of_string vw) in
+         let bytes = encode_file_w kwn vwn (n_of_int (List.length pairs)) pairs in
+         let back = (match decode_file_w_chk kwn vwn bytes with Some (_, qs) -> qs = pairs | None -> false) in
+         Printf.printf "%s %b\n" (hex_of_bytes bytes) back
+       | _ -> ())
+    done with End_of_file -> ()); exit 0 end;
   let ic = if Array.length Sys.argv > 1 then open_in Sys.argv.(1) else stdin in
   let cfg = ref { spb = n_of_int 4; lbits = n_of_int 16; simple = true; nothrow = true; destructive = false } in
   let hashes : (n, n) Hashtbl.t = Hashtbl.create 64 in
   let hash k = match Hashtbl.find_opt hashes k with Some h -> h | None -> k in
   let w = ref cworld_init in
+  let lval = ref false in     (* script directive "lvalues 1": the harness passes lvalue arguments, which are never consumed *)
   let buf = Buffer.create 65536 in
   let lineno = ref 0 in
   (try
@@ -402,6 +418,7 @@ let () =
       | ["cfg"; a; b; c; d; e] ->
         cfg := { spb = nn a; lbits = nn b; simple = bb c; nothrow = bb d; destructive = bb e }
       | ["key"; k; h] -> Hashtbl.replace hashes (nn k) (nn h)
+      | ["lvalues"; b] -> lval := (b = "1")
       | tab :: rest ->
         let o = parse_cop rest in
         let ((w', out), bytes) = cstep !cfg hash fapply_std !w (nat_of_int (int_of_string tab)) o in
@@ -415,7 +432,7 @@ let () =
            let unmodelled = (match out with [RExn EUnmodelled] -> true | _ -> false) in
            let first_bool = (match out with RBool b :: _ -> Some b | _ -> None) in
            let second_bool = (match out with _ :: RBool b :: _ -> Some b | _ -> None) in
-           let c2 kb vb = Buffer.add_string buf (Printf.sprintf " consumed=%d%d" (if kb then 1 else 0) (if vb then 1 else 0)) in
+           let c2 kb vb = Buffer.add_string buf (Printf.sprintf " consumed=%d%d" (if kb && not !lval then 1 else 0) (if vb && not !lval then 1 else 0)) in
            match rest with
            | ("insert" | "upsert" | "uprase") :: _ when not unmodelled ->
              (match first_bool with Some b -> c2 b b | None -> c2 false false)
